@@ -1,5 +1,20 @@
 #!/bin/sh
-# dev helper: run.sh <cfg> [module] [extra tlc args]   (scratch copy, timeout)
+# dev helper (not used by vcheck): run.sh <cfg> [module] [extra tlc args]
+#   scratch copy of this directory, TLC under a timeout, scratch removed afterwards.
+#   TRACE=<file>  is copied in as trace.ndjson;  KEEP=<file> receives the raw "@@B" lines as ndjson
 cfg=$1; mod=${2:-MC_Trie}; shift; [ $# -gt 0 ] && shift
-d=$(mktemp -d) && cp /verif/specs/Trie/* $d && cd $d && timeout ${TMO:-600} java -Xmx6g -Xss64m -XX:+UseParallelGC -cp /opt/veriftools/tla/tla2tools.jar:/opt/veriftools/tla/CommunityModules-deps.jar tlc2.TLC -workers ${VERIF_WORKERS:-4} -metadir ./meta -noGenerateSpecTE -config $cfg "$@" $mod.tla 2>&1 | grep -v ^WARNING | tail -${TAILN:-40}
-rm -rf $d
+d=$(mktemp -d /tmp/trie-run.XXXXXX) || exit 2
+cp /verif/specs/Trie/*.tla /verif/specs/Trie/*.cfg "$d"/
+[ -n "$TRACE" ] && cp "$TRACE" "$d/trace.ndjson"
+cd "$d" && timeout ${TMO:-600} java -Xmx6g -Xss64m -XX:+UseParallelGC -cp /opt/veriftools/tla/tla2tools.jar:/opt/veriftools/tla/CommunityModules-deps.jar tlc2.TLC -workers ${VERIF_WORKERS:-4} -metadir ./meta -noGenerateSpecTE -config $cfg "$@" $mod.tla > out.txt 2>&1
+if [ -n "$KEEP" ]; then
+  python3 -c '
+import json,sys
+o=open(sys.argv[2],"w")
+for line in open(sys.argv[1]):
+    if line.startswith("\"@@B"):
+        o.write(json.loads(line)[4:]+"\n")
+' out.txt "$KEEP"
+fi
+grep -v '^WARNING\|^Parsing\|^Semantic\|^Linting\|^"@@B' out.txt | tail -${TAILN:-40}
+cd / && rm -rf "$d"
